@@ -140,4 +140,28 @@ def strat(draw):
     return {'p': p, 'pat': pat, 'regex': rx, 'mc': draw(st.booleans()), 'n': draw(st.sampled_from([-1, -1, -1, 0, 1, 2, 7, -5])), 's': s, 'un': un}
 
 
-SUBS = [Sub('matching', eval_case, strategy=strat, quick=900, thorough=15000)]
+@st.composite
+def strat_below(draw):
+    """values in which a setting was inserted below others (topmost=False) - the removal of it by unformat_matching has
+    restart pairs to clean up - with several matches and a count that may run out before they do"""
+    names = ['red', 'blue', 'bold', 'underline', 'italic', 'bg_red']
+    n = draw(st.integers(3, 8))
+    t = ''.join(draw(st.lists(st.sampled_from(['a', 'a', 'b']), min_size=n, max_size=n)))
+    rs = []
+    for _ in range(draw(st.integers(1, 2))):
+        a = draw(st.integers(0, n - 2))
+        rs.append({'s': [{'k': 'name', 'v': draw(st.sampled_from(names))}], 'a': a, 'b': draw(st.one_of(st.none(), st.integers(a + 1, n))), 'top': True})
+    low = draw(st.sampled_from(names))
+    for _ in range(draw(st.integers(1, 2))):
+        a = draw(st.integers(0, n - 1))
+        rs.append({'s': [{'k': 'name', 'v': low}], 'a': a, 'b': draw(st.one_of(st.none(), st.integers(a + 1, n))), 'top': False})
+    un = draw(st.sampled_from([True, True, True, False]))
+    sel = draw(st.sampled_from([[{'k': 'name', 'v': low}], [{'k': 'name', 'v': low}], [], [{'k': 'name', 'v': draw(st.sampled_from(names))}]]))
+    return {'p': {'cls': draw(st.sampled_from(['S', 'S', 's'])), 'ctor': {'k': 'ranges', 't': t, 'r': rs}, 'ops': []},
+            'pat': draw(st.sampled_from(['a', 'b', 'ab', 'aa', '.', 'a+'])), 'regex': draw(st.booleans()), 'mc': True,
+            'n': draw(st.sampled_from([1, 2, 1, -1, 0, 3])), 's': sel, 'un': un}
+
+
+SUBS = [Sub('matching', eval_case, strategy=strat, quick=900, thorough=15000),
+        Sub('matching_after_below_insert', eval_case, strategy=strat_below, quick=300, thorough=5000,
+            rule='values with a setting inserted below others (topmost=False), several matches, counts that run out before the matches do')]
